@@ -453,6 +453,11 @@ def run_history(case):
 def classify(case):
     classes = set(["policy:" + case["policy"]])
     nontrivial = False
+    ms = case["messages"]
+    for a, b in zip(ms, ms[1:]):
+        if a[0] == b[0] == "req" and isinstance(a[1], int) and isinstance(b[1], int) and {a[1], b[1]} & {H["GETATTR"], H["CALLATTR"]} and {a[1], b[1]} & {H["SETATTR"], H["DELATTR"]} \
+                and len(a[3]) >= 2 and len(b[3]) >= 2 and a[3][:2] == b[3][:2]:
+            classes.add("fragment:permitted-and-denied-access-of-one-name")
     for m in case["messages"]:
         classes.add("msg:" + m[0])
         if m[0] in ("req", "req-rawargs"):
@@ -588,18 +593,42 @@ def messages():
     return st.one_of(body, body, body, body, body, body, body, st.one_of(reply, raw))
 
 
+def replay_fragment():
+    """a PERMITTED by-name access followed by a denied one of the same name on the same object (and the reverse order): a
+    decision remembered per name must not answer a question of another kind"""
+    tgt = st.sampled_from([1, 1, 1, 2, 0]).map(lambda i: ["ref", "harvested", i])       # [0] is the root, [1] the first prelude result
+    nm = st.sampled_from(["exposed_value", "value", "exposed_method", "method", "exposed_value", "value", "exposed_echo", "echo",
+                          "exposed_get_obj", "get_obj", "__len__", "__doc__", "__str__", "exposed_get_list"]).map(lambda n: ["val", ["str", n]])
+    v = st.sampled_from([["val", ["int", "1"]], ["val", ["none"]]])
+    emp = ["val", ["tuple", []]]
+
+    def mk(t):
+        o, n, val, first, second, swap = t
+        a = ["req", H["GETATTR"], ["int", "11"], [o, n]] if first else ["req", H["CALLATTR"], ["int", "11"], [o, n, emp, emp]]
+        b = ["req", H["SETATTR"], ["int", "12"], [o, n, val]] if second else ["req", H["DELATTR"], ["int", "12"], [o, n]]
+        return [b, a, b] if swap else [a, b]
+    return st.tuples(tgt, nm, v, st.booleans(), st.booleans(), st.booleans()).map(mk)
+
+
+def message_lists():
+    """a generated history; every other one has the permitted-then-denied fragment spliced in at a generated position"""
+    base = st.lists(messages(), min_size=1, max_size=30)
+    return st.tuples(base, st.one_of(st.just([]), replay_fragment()), st.integers(0, 30)).map(
+        lambda t: (t[0][:t[2] % (len(t[0]) + 1)] + t[1] + t[0][t[2] % (len(t[0]) + 1):])[:30])
+
+
 def cases():
     return st.fixed_dictionaries({
         "prelude": st.lists(st.sampled_from(["get_obj", "get_list", "get_func", "get_obj"]), min_size=1, max_size=4),
         "release": st.booleans(), "policy": st.sampled_from(["well", "well", "badly", "never"]), "conn2_custom_exc": st.booleans(),
-        "messages": st.lists(messages(), min_size=1, max_size=30)})
+        "messages": message_lists()})
 
 
 def fuzz_cases():
     """the same histories, drawn as a tuple: what Hypothesis's byte-string front end (fuzz_one_input) decodes reliably"""
     return st.tuples(st.lists(st.sampled_from(["get_obj", "get_list", "get_func", "get_obj"]), min_size=1, max_size=4), st.booleans(),
                      st.sampled_from(["well", "well", "badly", "never"]), st.booleans(),
-                     st.lists(messages(), min_size=1, max_size=30)).map(
+                     message_lists()).map(
         lambda t: {"prelude": t[0], "release": t[1], "policy": t[2], "conn2_custom_exc": t[3], "messages": t[4]})
 
 
